@@ -78,9 +78,10 @@ type fact struct {
 }
 
 type memVersion struct {
-	val ssa.Value // the SSA value stored (nil = initial contents / phi)
-	phi map[*ssa.BasicBlock]*memVersion
-	id  string
+	val    ssa.Value // the SSA value stored (nil = initial contents / phi)
+	lenVal ssa.Value // contents unknown, length known: what a resizing helper was told (hb.resize(n))
+	phi    map[*ssa.BasicBlock]*memVersion
+	id     string
 }
 
 type bprover struct {
@@ -334,6 +335,9 @@ func (p *bprover) paramFieldKey(v ssa.Value) (string, bool) {
 func (p *bprover) lenOfMem(mv *memVersion, at *ssa.BasicBlock) lin {
 	if mv.val != nil {
 		return p.lenOf(mv.val, at)
+	}
+	if mv.lenVal != nil {
+		return p.val(mv.lenVal, at)
 	}
 	a := "len(" + mv.id + ")"
 	p.axioms[a] = true
@@ -991,6 +995,8 @@ func (p *bprover) callVersion(call *ssa.Call) *memVersion {
 	var mv *memVersion
 	if h := staticCallee(call); h != nil && len(call.Call.Args) > 0 && call.Call.Args[0] == ssa.Value(p.cell) && storesResultThroughRecv(h) {
 		mv = &memVersion{val: call, id: "call:" + p.id(call)}
+	} else if h := staticCallee(call); h != nil && len(call.Call.Args) > 0 && call.Call.Args[0] == ssa.Value(p.cell) && setsLenOfRecvTo(h) > 0 {
+		mv = &memVersion{id: "resized:" + p.id(call), lenVal: call.Call.Args[setsLenOfRecvTo(h)]}
 	} else {
 		mv = &memVersion{id: "clobber:" + p.id(call)}
 	}
